@@ -520,6 +520,20 @@ func levelOf(prop string) string {
 }
 
 func assumptionsFor(prop string) []string {
+	extra := map[string][]string{
+		"C12": {"Memoize(false): a memo hit replays no failure events, so with Memoize(true) the final message can differ (defect F14, DESIGN 16.3); the global maximum over the run is an induction over the per-function obligations (meta)"},
+		"C07": {"StronglyConnectedComponents/FindCyclesInSCC: contracts assumed at the call sites; checked only by the BOUNDED stand-in (all directed graphs with <= 4 vertices)", "front-end guarantees TreeWF()/CodeWF() (C03 is not applicable)"},
+		"C08": {"'the leader lies on every cycle of its component' is a BOUNDED stand-in (all directed graphs with <= 4 vertices), not a proof"},
+		"C19": {"SCC / cycle enumeration / leader determinism: BOUNDED stand-in (all directed graphs with <= 4 vertices, several vertex orders, repeated calls), not a proof", "ComputeNullables' order dependence inside cycles (F11) is not decided"},
+		"C13": {"front-end guarantees TreeWF()/CodeWF() are assumed (C03 not applicable); strings.Reader model assumed; termination of the optimizer fixpoint, of NullableVisit and of the front-end parser itself not under contract"},
+		"C04": {"strings.Reader is abstracted to a stream of runes with an assumed progress/EOF contract"},
+		"C06": {"user code predicates are functions of their own labels and the position (C06's hypothesis, stated as the assumed contract of the run field)"},
+		"C09": {"the optimize visitor's slice surgery is outside the slice model; visitors are assumed to keep the tree well-formed"},
+	}
+	return append(extra[prop], assumptionsBase()...)
+}
+
+func assumptionsBase() []string {
 	return []string{
 		"machine arithmetic treated as mathematical (ranges asserted at introduction; only uint64 ++ generates an overflow obligation)",
 		"partial correctness: termination only where a decreases clause is discharged",
